@@ -8,11 +8,12 @@ From PV Require Import History Solver SolverProofs.
 Import ListNotations.
 Local Open Scope nat_scope.
 
-(* The full-strength statement.  It is FALSE of the faithful model (three refutations below); what holds is
-   C03_run_partial under the three decidable guards. *)
+(* The full-strength statement.  It is FALSE of the faithful model (two refutations below: both are loud error
+   classes); what holds is C03_run_partial under the two decidable guards.  The Heun part is full-strength since
+   fix D36: the model's heun_step is the Heun formula for every (stateful) right-hand side, no guard. *)
 Definition C03_full_statement : Prop :=
-  forall (C : Type) (f : C -> nat -> row -> row * C) s aliased T dt dts cutoff cols y0 c0,
-    run_model f s aliased T dt dts cutoff cols y0 c0 = Rows (spec_run f s T dt dts cutoff cols y0 c0).
+  forall (C : Type) (f : C -> nat -> row -> row * C) s T dt dts cutoff cols y0 c0,
+    run_model f s T dt dts cutoff cols y0 c0 = Rows (spec_run f s T dt dts cutoff cols y0 c0).
 
 (* -------- core: the loop around any stateful step function -------- *)
 (* stored rows = the states before the steps whose counter is a multiple of store_step, in order *)
@@ -41,9 +42,9 @@ Proof. exact traj_step_time. Qed.
 Print Assumptions C03_step_time.
 
 (* -------- _solve_euler / _solve_heun -------- *)
-Theorem C03_solve_partial : forall (C : Type) (f : C -> nat -> row -> row * C) s aliased T dt dts y0 c0 t0,
-  rows_fit T dt dts = true -> heun_rhs_fresh s aliased = true ->
-  solve f s aliased T dt dts y0 c0 t0 = Rows (spec_rows f s T dt dts y0 c0 t0).
+Theorem C03_solve_partial : forall (C : Type) (f : C -> nat -> row -> row * C) s T dt dts y0 c0 t0,
+  rows_fit T dt dts = true ->
+  solve f s T dt dts y0 c0 t0 = Rows (spec_rows f s T dt dts y0 c0 t0).
 Proof. exact solve_partial. Qed.
 Print Assumptions C03_solve_partial.
 
@@ -53,7 +54,7 @@ Proof. exact spec_rows_length. Qed.
 Print Assumptions C03_rows_number.
 
 Theorem C03_row_k : forall (C : Type) (f : C -> nat -> row -> row * C) s T dt dts y0 c0 t0 k, k < rnd (T / dts) ->
-  nth k (spec_rows f s T dt dts y0 c0 t0) [] = fst (traj (step_of f s false dt) t0 0 y0 c0 (k * rnd (dts / dt))).
+  nth k (spec_rows f s T dt dts y0 c0 t0) [] = fst (traj (step_of f s dt) t0 0 y0 c0 (k * rnd (dts / dt))).
 Proof. exact spec_rows_nth. Qed.
 Print Assumptions C03_row_k.
 
@@ -63,9 +64,9 @@ Proof. exact spec_rows_first. Qed.
 Print Assumptions C03_first_row.
 
 (* the loud class: more stores than allocated rows *)
-Theorem C03_index_error : forall (C : Type) (f : C -> nat -> row -> row * C) s aliased T dt dts y0 c0 t0,
+Theorem C03_index_error : forall (C : Type) (f : C -> nat -> row -> row * C) s T dt dts y0 c0 t0,
   1 <= rnd (dts / dt) -> rnd (T / dts) < cdiv (rnd (T / dt)) (rnd (dts / dt)) ->
-  solve f s aliased T dt dts y0 c0 t0 = ErrIndex.
+  solve f s T dt dts y0 c0 t0 = ErrIndex.
 Proof. exact solve_index_error. Qed.
 Print Assumptions C03_index_error.
 
@@ -76,16 +77,24 @@ Proof. exact euler_step_formula. Qed.
 Print Assumptions C03_euler_step.
 
 Theorem C03_heun_step : forall (g : nat -> row -> row) dt t y,
-  fst (heun_step (pure_rhs g) false dt tt t y) =
+  fst (heun_step (pure_rhs g) dt tt t y) =
   vadd y (vscale (dt / Q2Qc 2)%Qc (vadd (g t y) (g t (vadd y (vscale dt (g t y)))))).
 Proof. exact heun_step_formula. Qed.
 Print Assumptions C03_heun_step.
 
+(* what fix D36 changed: before, with generated code (the right-hand side returns its own buffer), the loop computed
+   y + dt*f(t, y + dt*f(t, y)); witness x' = -x/2 + 1/4, x = 1, dt = 1/4 *)
+Theorem C03_heun_before_D36_refuted :
+  row_eqb (fst (heun_step (lin_f wit_rhs) (mkq 1 4) 0 0 [mkq 1 1])) [mkq 241 256] = true /\
+  row_eqb (fst (heun_step_before_D36 (lin_f wit_rhs) (mkq 1 4) 0 0 [mkq 1 1])) [mkq 121 128] = true.
+Proof. exact heun_before_D36_differs. Qed.
+Print Assumptions C03_heun_before_D36_refuted.
+
 (* -------- run(): values, time axis, cutoff -------- *)
-Theorem C03_run_partial : forall (C : Type) (f : C -> nat -> row -> row * C) s aliased T dt dts cutoff cols y0 c0,
+Theorem C03_run_partial : forall (C : Type) (f : C -> nat -> row -> row * C) s T dt dts cutoff cols y0 c0,
   let d := match dts with Some d => d | None => dt end in
-  rows_fit T dt d = true -> heun_rhs_fresh s aliased = true -> frame_ok T d (length cols) = true ->
-  run_model f s aliased T dt dts cutoff cols y0 c0 = Rows (spec_run f s T dt dts cutoff cols y0 c0).
+  rows_fit T dt d = true -> frame_ok T d (length cols) = true ->
+  run_model f s T dt dts cutoff cols y0 c0 = Rows (spec_run f s T dt dts cutoff cols y0 c0).
 Proof. exact run_partial. Qed.
 Print Assumptions C03_run_partial.
 
@@ -94,7 +103,7 @@ Theorem C03_cutoff_and_time : forall (C : Type) (f : C -> nat -> row -> row * C)
   let d := match dts with Some d => d | None => dt end in
   In r (spec_run f s T dt dts cutoff cols y0 c0) <->
   exists k, k < rnd (T / d) /\ (cutoff <= NtoQc k * d)%Qc /\
-            r = (NtoQc k * d)%Qc :: pick cols (fst (traj (step_of f s false dt) 0 0 y0 c0 (k * rnd (d / dt)))).
+            r = (NtoQc k * d)%Qc :: pick cols (fst (traj (step_of f s dt) 0 0 y0 c0 (k * rnd (d / dt)))).
 Proof. exact spec_run_rows. Qed.
 Print Assumptions C03_cutoff_and_time.
 
@@ -121,34 +130,22 @@ Print Assumptions C03_linspace_axis_refuted.
 
 (* -------- refutations of the full statement (each replayed on the real code: corpus/C03) -------- *)
 Theorem C03_refuted_index_error :
-  run_model (lin_f wit_rhs) Euler true (mkq 5 8) (mkq 1 8) (Some (mkq 1 4)) (mkq 0 1) [0] [mkq 1 1] 0 = ErrIndex /\
+  run_model (lin_f wit_rhs) Euler (mkq 5 8) (mkq 1 8) (Some (mkq 1 4)) (mkq 0 1) [0] [mkq 1 1] 0 = ErrIndex /\
   rows_fit (mkq 5 8) (mkq 1 8) (mkq 1 4) = false.
 Proof. exact refuted_index_error. Qed.
 Print Assumptions C03_refuted_index_error.
 
-Theorem C03_refuted_heun_alias :
-  run_model (lin_f wit_rhs) Heun true (mkq 1 1) (mkq 1 4) None (mkq 0 1) [0] [mkq 1 1] 0 <>
-  Rows (spec_run (lin_f wit_rhs) Heun (mkq 1 1) (mkq 1 4) None (mkq 0 1) [0] [mkq 1 1] 0) /\
-  rows_eqb (firstn 2 match run_model (lin_f wit_rhs) Heun true (mkq 1 1) (mkq 1 4) None (mkq 0 1) [0] [mkq 1 1] 0 with
-                     | Rows l => l | _ => [] end)
-           [[mkq 0 1; mkq 1 1]; [mkq 1 4; mkq 121 128]] = true /\
-  rows_eqb (firstn 2 (spec_run (lin_f wit_rhs) Heun (mkq 1 1) (mkq 1 4) None (mkq 0 1) [0] [mkq 1 1] 0))
-           [[mkq 0 1; mkq 1 1]; [mkq 1 4; mkq 241 256]] = true /\
-  heun_rhs_fresh Heun true = false.
-Proof. exact refuted_heun_alias. Qed.
-Print Assumptions C03_refuted_heun_alias.
-
 Theorem C03_refuted_single_row :
-  run_model (lin_f wit_rhs2) Euler true (mkq 1 8) (mkq 1 8) None (mkq 0 1) [0; 1] [mkq 1 1; mkq 2 1] 0 = ErrShape /\
+  run_model (lin_f wit_rhs2) Euler (mkq 1 8) (mkq 1 8) None (mkq 0 1) [0; 1] [mkq 1 1; mkq 2 1] 0 = ErrShape /\
   frame_ok (mkq 1 8) (mkq 1 8) 2 = false.
 Proof. exact refuted_single_row. Qed.
 Print Assumptions C03_refuted_single_row.
 
-(* non-vacuity: T = 1, dt = 1/8, dts = 3/8, cutoff = 3/8, Heun around a fresh right-hand side satisfies all three
-   guards; the frame has the two rows at 3/8 and 3/4 *)
+(* non-vacuity: T = 1, dt = 1/8, dts = 3/8, cutoff = 3/8, Heun satisfies both guards; the frame has the two rows at
+   3/8 and 3/4 *)
 Example C03_nonvacuous :
-  rows_fit (mkq 1 1) (mkq 1 8) (mkq 3 8) = true /\ heun_rhs_fresh Heun false = true /\ frame_ok (mkq 1 1) (mkq 3 8) 1 = true /\
-  match run_model (lin_f wit_rhs) Heun false (mkq 1 1) (mkq 1 8) (Some (mkq 3 8)) (mkq 3 8) [0] [mkq 1 1] 0 with
+  rows_fit (mkq 1 1) (mkq 1 8) (mkq 3 8) = true /\ frame_ok (mkq 1 1) (mkq 3 8) 1 = true /\
+  match run_model (lin_f wit_rhs) Heun (mkq 1 1) (mkq 1 8) (Some (mkq 3 8)) (mkq 3 8) [0] [mkq 1 1] 0 with
   | Rows l => row_eqb (map (hd 0%Qc) l) [mkq 3 8; mkq 3 4] = true | _ => False end.
 Proof. repeat split; vm_compute; reflexivity. Qed.
 Print Assumptions C03_nonvacuous.
